@@ -2,9 +2,398 @@
   C01 — Symbolic tree integrity. Property theorems only (model: PgModel/Sym*.lean,
   lemmas: PgProofs/Sym*.lean).
 -/
-import PgModel.SymWF
+import PgProofs.SymLocal
 namespace Pg.Sym
 
 example : (Forest.empty).wf = true := by decide
+
+/-! ## Preservation of the parent/path invariant by a step -/
+
+theorem mem_insertByIdx (key : Tree → Nat) (x : Tree) : (l : List Tree) → ∀ y, y ∈ insertByIdx key x l ↔ y = x ∨ y ∈ l
+  | [], y => by simp [insertByIdx]
+  | z :: zs, y => by
+    unfold insertByIdx
+    split
+    · simp
+    · simp only [List.mem_cons, mem_insertByIdx key x zs y]
+      constructor
+      · rintro (h | h | h)
+        · exact Or.inr (Or.inl h)
+        · exact Or.inl h
+        · exact Or.inr (Or.inr h)
+      · rintro (h | h | h)
+        · exact Or.inr (Or.inl h)
+        · exact Or.inl h
+        · exact Or.inr (Or.inr h)
+
+theorem mem_sortByIdx (key : Tree → Nat) : (l : List Tree) → ∀ y, y ∈ sortByIdx key l ↔ y ∈ l
+  | [], y => by simp [sortByIdx]
+  | x :: xs, y => by
+    simp only [sortByIdx, mem_insertByIdx, mem_sortByIdx key xs y, List.mem_cons]
+
+/-- the presentation order of the roots (and dropping roots nobody holds) does not matter. -/
+theorem normalizeRoots_ok (before after : Forest) (k : Bool) (h : after.ok = true) :
+    (normalizeRoots before after k).ok = true := by
+  rw [Forest.ok_iff] at *
+  intro r hr
+  simp only [normalizeRoots, List.mem_append, List.mem_filterMap, mem_sortByIdx, List.mem_filter] at hr
+  rcases hr with ⟨i, _, hfind⟩ | ⟨hmem, _⟩
+  · exact h r (List.mem_of_find?_eq_some hfind)
+  · exact h r hmem
+
+/-- operations whose preservation theorem is proved below (every operation that offers no
+value); the value-offering operations are covered by `C01_step_Full` as a statement, by the
+driver-side `wf` check of every model state in the correspondence run, and by the lemmas
+`relocate_ok`, `setKey_ok`, `rearrange_local`. -/
+def Proved : Op → Bool
+  | .lReverse _ | .lSort _ _ _ | .lClear _ | .dClear _ | .dPopItem _ | .delItem _ _ | .lPop _ _
+  | .lRemove _ _ | .dPop _ _ => true
+  | _ => false
+
+def C01_step_Full : Prop :=
+  ∀ (f : Forest) (n : Bool) (op : Op), f.wf = true → Admissible Cfg.patched f n op = true →
+    (stepA Cfg.patched f n op).forest.wf = true
+
+theorem dropAll_ok (f : Forest) (m : Meta) (its : Items) (hf : f.ok = true)
+    (hits : okItems m.id m.path its = true) : (dropAll Cfg.patched f m its).ok = true := by
+  unfold dropAll
+  apply addRoots_ok _ _ (mapAt_ok f m.id _ (clear_local m.id) hf)
+  intro t ht
+  simp only [List.mem_map, childNodes, List.mem_filter] at ht
+  obtain ⟨c, ⟨⟨kv, hkv, rfl⟩, _⟩, rfl⟩ := ht
+  rw [okItems_mem] at hits
+  simp only [Cfg.patched, if_true]
+  exact detachFrom_ok m.kind (hits kv hkv)
+
+theorem rawDelList_ok (f : Forest) (m : Meta) (its : Items) (pos : Nat) (hf : f.ok = true)
+    (hits : okItems m.id m.path its = true) : (rawDelList Cfg.patched f m its pos).ok = true := by
+  unfold rawDelList
+  apply addRoot_ok
+  · apply mapAt_ok f m.id _ _ hf
+    simp only [Cfg.patched, if_true, removeAt]
+    exact rearrange_local m.id _ (noNew_removeAt pos)
+  · simp only [Cfg.patched, if_true]
+    cases hg : getKey its (Key.i pos) with
+    | none => simp [Option.getD, detachFrom, Tree.setParent, Tree.okRoot]
+    | some c =>
+      simp only [Option.getD]
+      exact detachFrom_ok .list (getKey_ok hits hg)
+
+theorem delItemList_ok (f : Forest) (n : Bool) (m : Meta) (its : Items) (idx : Int) (acc : Bool)
+    (hf : f.ok = true) (hits : okItems m.id m.path its = true) :
+    (delItemList Cfg.patched f n m its idx acc).forest.ok = true := by
+  unfold delItemList
+  simp only
+  split; · exact hf
+  split; · exact hf
+  split; · exact hf
+  split
+  · exact notify_ok _ _ (rawDelList_ok f m its _ hf hits)
+  · exact rawDelList_ok f m its _ hf hits
+
+theorem detachedOld_ok {m : Meta} {its : Items} {k : Key} (hits : okItems m.id m.path its = true) :
+    ∀ t ∈ (match getKey its k with
+      | some (Tree.node om oits) => some (Tree.setPath [] (Tree.setParent none (Tree.node om oits)))
+      | _ => none).toList, t.okRoot = true := by
+  intro t ht
+  simp only [Option.mem_toList] at ht
+  split at ht
+  · next om oits hold =>
+    cases ht
+    exact okRoot_setPath [] _ (okRoot_setParent none _ (okRoot_of_okSub (getKey_ok hits hold)))
+  · cases ht
+
+theorem rawSetDict_missing_ok (f : Forest) (m : Meta) (its : Items) (k : Key) (hf : f.ok = true)
+    (hits : okItems m.id m.path its = true) (hk : m.kind = .dict) :
+    ∀ r, rawSetDict Cfg.patched f m its k (.atom .missing) = .ok r → r.1.ok = true := by
+  intro r hr
+  simp only [rawSetDict, hk, VE.isMissing, isObjKind, Bool.true_and, Bool.not_false, Bool.and_true] at hr
+  by_cases hh : hasKey its k = true
+  · simp only [hh, Bool.not_true, if_true] at hr
+    simp at hr
+    cases hr
+    exact addRoots_ok _ _ (mapAt_ok f m.id _ (erase_local m.id k) hf) (detachedOld_ok hits)
+  · simp only [Bool.not_eq_true] at hh
+    simp [hh] at hr
+    cases hr; exact hf
+
+theorem permute_ok (f : Forest) (t : Nat) (g : Items → Items) (hg : NoNewValues g) (hf : f.ok = true) :
+    (permute Cfg.patched f t g).ok = true := by
+  unfold permute
+  simp only [Cfg.patched, if_true]
+  exact mapAt_ok f t _ (rearrange_local t g hg) hf
+
+theorem delItemDict_ok (f : Forest) (n : Bool) (m : Meta) (its : Items) (k : Key) (acc : Bool)
+    (hf : f.ok = true) (hits : okItems m.id m.path its = true) (hk : m.kind = .dict) :
+    (delItemDict Cfg.patched f n m its k acc).forest.ok = true := by
+  unfold delItemDict
+  split; · exact hf
+  split; · exact hf
+  split; · exact hf
+  unfold finish
+  split
+  · exact hf
+  · next f' upd heq =>
+    have := rawSetDict_missing_ok f m its k hf hits hk (f', upd) heq
+    split
+    · exact notify_ok _ _ this
+    · exact this
+
+/-- **C01, step theorem (proved part)**: on the patched tree every operation of `Proved` maps a
+forest in which every non-root node believes its actual parent and path to such a forest — for
+every forest, every target, every index / key / rank list, notification on or off. -/
+theorem C01_step_partial (f : Forest) (n : Bool) (op : Op) (hf : f.ok = true) (hp : Proved op = true) :
+    (stepA Cfg.patched f n op).forest.ok = true := by
+  unfold stepA
+  split
+  · exact hf
+  unfold stepN
+  apply normalizeRoots_ok
+  cases op with
+  | new v => simp [Proved] at hp
+  | clone t deep => simp [Proved] at hp
+  | setItem t k v => simp [Proved] at hp
+  | lAppend t v => simp [Proved] at hp
+  | lInsert t idx v => simp [Proved] at hp
+  | lExtend t vs => simp [Proved] at hp
+  | lIMul t k => simp [Proved] at hp
+  | lSetSlice t a b c vs => simp [Proved] at hp
+  | dSetDefault t k v => simp [Proved] at hp
+  | dUpdate t kvs => simp [Proved] at hp
+  | rebind t pairs skip => simp [Proved] at hp
+  | delItem t k =>
+    cases hfind : f.find? t with
+    | none => simp only [step, hfind]; exact hf
+    | some tr =>
+      cases tr with
+      | leaf a => simp only [step, hfind]; exact hf
+      | node m its =>
+        have hits := Forest.find?_node_ok f hf t m its hfind
+        simp only [step, hfind]
+        cases hk : m.kind with
+        | dict => exact delItemDict_ok f n m its k false hf hits hk
+        | list =>
+          cases k with
+          | s _ => exact hf
+          | i idx => exact delItemList_ok f n m its idx false hf hits
+        | obj c => exact hf
+  | lPop t idx =>
+    cases hfind : f.find? t with
+    | none => simp only [step, hfind]; exact hf
+    | some tr =>
+      cases tr with
+      | leaf a => simp only [step, hfind]; exact hf
+      | node m its =>
+        have hits := Forest.find?_node_ok f hf t m its hfind
+        simp only [step, hfind]
+        split
+        · exact hf
+        · exact delItemList_ok f n m its _ true hf hits
+  | lRemove t a =>
+    cases hfind : f.find? t with
+    | none => simp only [step, hfind]; exact hf
+    | some tr =>
+      cases tr with
+      | leaf a => simp only [step, hfind]; exact hf
+      | node m its =>
+        have hits := Forest.find?_node_ok f hf t m its hfind
+        simp only [step, hfind]
+        split
+        · exact delItemList_ok f n m its _ false hf hits
+        · exact hf
+  | lClear t =>
+    cases hfind : f.find? t with
+    | none => simp only [step, hfind]; exact hf
+    | some tr =>
+      cases tr with
+      | leaf a => simp only [step, hfind]; exact hf
+      | node m its =>
+        have hits := Forest.find?_node_ok f hf t m its hfind
+        simp only [step, hfind]
+        split
+        · exact hf
+        · exact dropAll_ok f m its hf hits
+  | lSort t ranks rev =>
+    cases hfind : f.find? t with
+    | none => simp only [step, hfind]; exact hf
+    | some tr =>
+      cases tr with
+      | leaf a => simp only [step, hfind]; exact hf
+      | node m its =>
+        have hits := Forest.find?_node_ok f hf t m its hfind
+        simp only [step, hfind]
+        split
+        · exact hf
+        · exact permute_ok f t _ (noNew_pySort ranks rev) hf
+  | lReverse t =>
+    cases hfind : f.find? t with
+    | none => simp only [step, hfind]; exact hf
+    | some tr =>
+      cases tr with
+      | leaf a => simp only [step, hfind]; exact hf
+      | node m its =>
+        have hits := Forest.find?_node_ok f hf t m its hfind
+        simp only [step, hfind]
+        split
+        · exact hf
+        · exact permute_ok f t _ noNew_reverse hf
+  | dPop t k =>
+    cases hfind : f.find? t with
+    | none => simp only [step, hfind]; exact hf
+    | some tr =>
+      cases tr with
+      | leaf a => simp only [step, hfind]; exact hf
+      | node m its =>
+        have hits := Forest.find?_node_ok f hf t m its hfind
+        simp only [step, hfind]
+        split
+        · next hk =>
+          split
+          · exact delItemDict_ok f n m its k true hf hits hk
+          · exact hf
+        · exact hf
+  | dPopItem t =>
+    cases hfind : f.find? t with
+    | none => simp only [step, hfind]; exact hf
+    | some tr =>
+      cases tr with
+      | leaf a => simp only [step, hfind]; exact hf
+      | node m its =>
+        have hits := Forest.find?_node_ok f hf t m its hfind
+        simp only [step, hfind]
+        split
+        · exact hf
+        · split
+          · exact hf
+          · next k c hlast =>
+            apply addRoot_ok _ _ (mapAt_ok f t _ (erase_local t k) hf)
+            simp only [Cfg.patched, if_true]
+            have hmem : (k, c) ∈ its := List.mem_of_getLast? hlast
+            rw [okItems_mem] at hits
+            exact detachFrom_ok .dict (hits (k, c) hmem)
+  | dClear t =>
+    cases hfind : f.find? t with
+    | none => simp only [step, hfind]; exact hf
+    | some tr =>
+      cases tr with
+      | leaf a => simp only [step, hfind]; exact hf
+      | node m its =>
+        have hits := Forest.find?_node_ok f hf t m its hfind
+        simp only [step, hfind]
+        split
+        · exact hf
+        · exact dropAll_ok f m its hf hits
+
+/-! ## Histories -/
+
+/-- a history: calls with the state of `notify_on_change` they run under. -/
+def runHist (cfg : Cfg) (f : Forest) : List (Bool × Op) → Forest
+  | [] => f
+  | (n, op) :: rest => runHist cfg (stepA cfg f n op).forest rest
+
+theorem C01_history_final (hist : List (Bool × Op)) : ∀ (f : Forest), f.ok = true →
+    (∀ s ∈ hist, Proved s.2 = true) → (runHist Cfg.patched f hist).ok = true := by
+  induction hist with
+  | nil => intro f hf _; exact hf
+  | cons s rest ih =>
+    intro f hf hall
+    obtain ⟨n, op⟩ := s
+    exact ih _ (C01_step_partial f n op hf (hall (n, op) (by simp))) (fun x hx => hall x (by simp [hx]))
+
+/-- **C01 over histories**: the invariant holds after every step of every history of proved
+operations ("checked after every step" = in every prefix), from every well-formed start. -/
+theorem C01_history_partial (f : Forest) (hist : List (Bool × Op)) (hf : f.ok = true)
+    (hall : ∀ s ∈ hist, Proved s.2 = true) (k : Nat) : (runHist Cfg.patched f (hist.take k)).ok = true :=
+  C01_history_final (hist.take k) f hf (fun s hs => hall s (List.mem_of_mem_take hs))
+
+/-- the empty forest is well-formed (base case). -/
+theorem C01_empty : Forest.empty.wf = true := by decide
+
+/-! ## What the invariant says, unfolded: every node stored under a holder at a key believes
+exactly that holder and that path. -/
+
+theorem C01_child_beliefs (h : Nat) (p : List Key) (its : Items) (hok : okItems h p its = true)
+    (k : Key) (cm : Meta) (cits : Items) (hmem : (k, Tree.node cm cits) ∈ its) :
+    cm.parent = some h ∧ cm.path = p ++ [k] := by
+  rw [okItems_mem] at hok
+  exact (okSub_node.mp (hok _ hmem)).1
+
+/-- relocate-or-copy, move case: a parentless well-formed root that is re-pathed and given a
+parent is well-formed at its destination (used by every value-offering operation). -/
+theorem C01_relocate (h : Nat) (p : List Key) (t : Tree) (hok : t.okRoot = true) :
+    ((t.setPath p).setParent (some h)).okSub h p = true := relocate_ok h p t hok
+
+/-- a removed / replaced value is a well-formed tree of its own. -/
+theorem C01_detached (kind : Kind) (h : Nat) (p : List Key) (t : Tree) (hok : t.okSub h p = true) :
+    (detachFrom kind t).okRoot = true := detachFrom_ok kind hok
+
+/-! ## Counterexamples: the defective entry points of the pinned tree (each replayed on the
+real code by the findings witnesses of findings/C01.json). -/
+
+def F : Bool × Bool × Bool := (false, true, false)
+def veDict (items : List (Key × VE)) : VE := .node .dict false true false items
+def veList (items : List VE) : VE := .node .list false true false (items.zipIdx.map fun vi => (Key.i vi.2, vi.1))
+
+/-- `l = pg.List([pg.Dict(), 1])`. -/
+def fList : Forest := (stepA Cfg.pinned Forest.empty true (.new (veList [veDict [], .atom (.int 1)]))).forest
+
+def C01_step_pinned_Full : Prop :=
+  ∀ (f : Forest) (n : Bool) (op : Op), f.ok = true → divergent f op = false →
+    (stepA Cfg.pinned f n op).forest.ok = true
+
+/-- F02: `l.reverse()` on the unpatched tree leaves the dict at index 1 believing path `[0]`. -/
+theorem C01_counterexample_F02 : (stepA Cfg.pinned fList true (.lReverse 0)).forest.ok = false := by decide
+
+theorem C01_counterexample_F02_sort :
+    (stepA Cfg.pinned fList true (.lSort 0 [1, 0] false)).forest.ok = false := by decide
+
+/-- F03: `l.insert(0, 5)` under `notify_on_change(False)` leaves the shifted dict with path `[0]`. -/
+theorem C01_counterexample_F03 :
+    (stepA Cfg.pinned fList false (.lInsert 0 0 (.atom (.int 5)))).forest.ok = false := by decide
+
+/-- F03: `l[-1] = pg.Dict()` under `notify_on_change(False)` stores the child with path `[-1]`. -/
+theorem C01_counterexample_F03_negative :
+    (stepA Cfg.pinned fList false (.setItem 0 (.i (-1)) (veDict []))).forest.ok = false := by decide
+
+theorem C01_step_pinned_counterexample : ¬ C01_step_pinned_Full := by
+  intro h
+  have := h fList true (.lReverse 0) (by decide) (by decide)
+  rw [C01_counterexample_F02] at this
+  cases this
+
+/-- … and the same calls are fine on the patched tree. -/
+theorem C01_fixed_F02 : (stepA Cfg.patched fList true (.lReverse 0)).forest.wf = true := by decide
+theorem C01_fixed_F03 : (stepA Cfg.patched fList false (.lInsert 0 0 (.atom (.int 5)))).forest.wf = true := by decide
+theorem C01_fixed_F03_negative :
+    (stepA Cfg.patched fList false (.setItem 0 (.i (-1)) (veDict []))).forest.wf = true := by decide
+
+/-- F33: on the unpatched tree the dict removed by `del l[0]` still believes that `l` is its
+parent, so offering `l` to it is flagged as diverging (the real call never returns); on the
+patched tree the removed dict is detached and the same call is admissible and well-formed. -/
+theorem C01_counterexample_F33 :
+    divergent (stepA Cfg.pinned fList true (.delItem 0 (.i 0))).forest (.setItem 1 (.s 0) (.ref 0)) = true := by
+  decide
+
+theorem C01_fixed_F33 :
+    let f := (stepA Cfg.patched fList true (.delItem 0 (.i 0))).forest
+    divergent f (.setItem 1 (.s 0) (.ref 0)) = false ∧
+      (stepA Cfg.patched f true (.setItem 1 (.s 0) (.ref 0))).forest.wf = true := by decide
+
+/-- F30 (known): `d = pg.Dict(k0=pg.Dict()); d.k0.k1 = d` — the model has no after-state. -/
+def fNest : Forest := (stepA Cfg.patched Forest.empty true (.new (veDict [(.s 0, veDict [])]))).forest
+
+theorem C01_counterexample_F30 :
+    (stepA Cfg.patched fNest true (.setItem 1 (.s 1) (.ref 0))).out = .diverges := by decide
+
+/-- F32 (known): `l.insert(0, l[0])` puts one node object in two places. -/
+theorem C01_counterexample_F32 :
+    Admissible Cfg.patched fList true (.lInsert 0 0 (.ref 1)) = false ∧
+      (stepA Cfg.patched fList true (.lInsert 0 0 (.ref 1))).forest.aliased = true := by decide
+
+/-! Non-vacuity: well-formed non-trivial forests exist and the hypotheses are satisfiable. -/
+example : fList.wf = true ∧ fList.ids.length = 2 := by decide
+example : Proved (.lReverse 0) = true ∧ Admissible Cfg.patched fList true (.lReverse 0) = true := by decide
+example : (runHist Cfg.patched fList [(true, .lReverse 0), (false, .lPop 0 (-1)), (true, .lClear 0)]).wf = true := by
+  decide
 
 end Pg.Sym
